@@ -65,39 +65,54 @@ example :
 /-! ## package name -/
 
 /-- **package name**: for an interface name of the IDL grammar's shape (a letter, then letters, digits, `.`, `-`)
-    the derived package name is a Go identifier, NOT a Go keyword and NOT `main`; it consists of lower-case
-    letters, digits and underscores; it is the interface name in lower case without dots and dashes (`pkgBase`:
-    lower-case letters and digits only), with one `_` appended exactly when that is a keyword or `main`.
+    the derived package name is a Go identifier, NOT a Go keyword, NOT `main` and NOT `documentation` (the name
+    go/build reserves for doc-only files: it ignores every file of a `package documentation`); it consists of
+    lower-case letters, digits and underscores; it is the interface name in lower case without dots and dashes
+    (`pkgBase`: lower-case letters and digits only), with one `_` appended exactly when that is a keyword, `main`
+    or `documentation`.
 
     Statement before the repairs 764942c / 2a8a008 (the generator had no `_` rule):
       `isGoIdent (pkgName n) = true ∧ (pkgName n).all (fun c => isLower c || isDigit c) = true`
     Its first conjunct is kept, its second one now holds for `pkgBase` and — see `pkgname_unchanged` — for
     `pkgName` whenever the old generator produced a usable name; it said nothing about keywords and `main`
-    (`package if`, `package main` satisfied it). -/
+    (`package if`, `package main` satisfied it).
+    Statement before the repair f1a09c1 (`documentation` was not treated): the same as now without the conjunct
+    `pkgName n ≠ str "documentation"` and without the `documentation` alternatives of the last conjunct — true of
+    the generator then, but `package documentation` satisfied it and does not build (the checker model `pkgOk`
+    lacked that rule of the tool chain). -/
 theorem pkgname_spec (n : Bytes) (h : ifaceNameShape n = true) :
     isGoIdent (pkgName n) = true ∧ pkgName n ∉ goKeywords ∧ pkgName n ≠ str "main"
+    ∧ pkgName n ≠ str "documentation"
     ∧ (pkgName n).all (fun c => isLower c || isDigit c || c == underscore) = true
     ∧ (pkgBase n).all (fun c => isLower c || isDigit c) = true
-    ∧ ((pkgName n = pkgBase n ∧ pkgBase n ∉ goKeywords ∧ pkgBase n ≠ str "main")
-        ∨ (pkgName n = pkgBase n ++ str "_" ∧ (pkgBase n ∈ goKeywords ∨ pkgBase n = str "main"))) := by
+    ∧ ((pkgName n = pkgBase n ∧ pkgBase n ∉ goKeywords ∧ pkgBase n ≠ str "main" ∧ pkgBase n ≠ str "documentation")
+        ∨ (pkgName n = pkgBase n ++ str "_"
+            ∧ (pkgBase n ∈ goKeywords ∨ pkgBase n = str "main" ∨ pkgBase n = str "documentation"))) := by
   obtain ⟨h1, h2, h3⟩ := pkgName_usable n h
   obtain ⟨c, r, e, hc, hr⟩ := pkgName_shape n h
   obtain ⟨c', r', e', hc', hr'⟩ := pkgBase_shape n h
-  refine ⟨h1, h2, h3, ?_, ?_, pkgName_cases n⟩
+  have h3' := fun hm => h3 ((mem_reservedPkgNames _).2 hm)
+  refine ⟨h1, h2, fun hm => h3' (.inl hm), fun hd => h3' (.inr hd), ?_, ?_, ?_⟩
   · rw [e]; simp [hc, hr]
   · rw [e']; simp [hc', hr']
+  · rcases pkgName_cases n with ⟨e1, hk, hr⟩ | ⟨e1, hk | hr⟩
+    · have hr' := fun hm => hr ((mem_reservedPkgNames _).2 hm)
+      exact .inl ⟨e1, hk, fun hm => hr' (.inl hm), fun hd => hr' (.inr hd)⟩
+    · exact .inr ⟨e1, .inl hk⟩
+    · exact .inr ⟨e1, .inr ((mem_reservedPkgNames _).1 hr)⟩
 
-/-- names that are neither a keyword nor `main` are derived exactly as before the repair: lower-case letters
-    and digits only (the previous `pkgname_spec`) -/
+/-- names that are neither a keyword nor `main` nor `documentation` are derived exactly as before the repairs:
+    lower-case letters and digits only (the first `pkgname_spec`) -/
 theorem pkgname_unchanged (n : Bytes) (h : ifaceNameShape n = true) (hk : pkgBase n ∉ goKeywords)
-    (hm : pkgBase n ≠ str "main") :
+    (hm : pkgBase n ≠ str "main") (hd : pkgBase n ≠ str "documentation") :
     pkgName n = pkgBase n ∧ isGoIdent (pkgName n) = true
     ∧ (pkgName n).all (fun c => isLower c || isDigit c) = true := by
-  obtain ⟨h1, _, _, _, h5, h6⟩ := pkgname_spec n h
-  rcases h6 with ⟨e, _⟩ | ⟨_, hk' | hm'⟩
+  obtain ⟨h1, _, _, _, _, h5, h6⟩ := pkgname_spec n h
+  rcases h6 with ⟨e, _⟩ | ⟨_, hk' | hm' | hd'⟩
   · exact ⟨e, h1, e ▸ h5⟩
   · exact absurd hk' hk
   · exact absurd hm' hm
+  · exact absurd hd' hd
 
 /-- inside the domain the package clause of the emitted file carries that identifier -/
 theorem pkgname_of_domain (t : Idl) (h : Domain t = true) (f : GoFile) (hf : genFile t = some f) :
@@ -107,7 +122,7 @@ theorem pkgname_of_domain (t : Idl) (h : Domain t = true) (f : GoFile) (hf : gen
   have hp : f.pkg = pkgName t.name := by
     obtain ⟨_, _, _, _, _, _, _, _, _, _, _, _, _, _, _, _, _, _, rfl⟩ := genFile_inv hf
     rfl
-  obtain ⟨hi, _, _, hc, _⟩ := pkgname_spec t.name h1.1
+  obtain ⟨hi, _, _, _, hc, _⟩ := pkgname_spec t.name h1.1
   refine ⟨hp, hp ▸ hi, ?_, ?_⟩ <;>
   · intro hm
     rw [hp] at hm
@@ -123,9 +138,21 @@ example : ifaceNameShape (str "i.f") = true ∧ pkgName (str "i.f") = str "if_"
     ∧ pkgName (str "Ty.Pe") = str "type_" ∧ pkgName (str "fu.nc") = str "func_" ∧ pkgName (str "g.o") = str "go_" := by
   decide
 
-/-- only the exact keywords and `main` are touched -/
+/-- the failing inputs before f1a09c1: `interface document.ation` (`Document.Ation`, `docu.ment-ation`) gave
+    `package documentation`, whose files go/build ignores -/
+example : ifaceNameShape (str "document.ation") = true ∧ pkgName (str "document.ation") = str "documentation_"
+    ∧ pkgName (str "Document.Ation") = str "documentation_"
+    ∧ pkgName (str "docu.ment-ation") = str "documentation_" := by decide
+
+/-- only the exact keywords, `main` and `documentation` are touched -/
 example : pkgName (str "i.ff") = str "iff" ∧ pkgName (str "ma.ins") = str "mains"
-    ∧ pkgName (str "in.it") = str "init" := by decide
+    ∧ pkgName (str "in.it") = str "init"
+    ∧ ifaceNameShape (str "document.ations") = true ∧ pkgName (str "document.ations") = str "documentations"
+    ∧ pkgName (str "document.atio") = str "documentatio" ∧ pkgName (str "doc.s") = str "docs" := by decide
+
+/-- the hypotheses of `pkgname_unchanged` hold for such a neighbour -/
+example : pkgBase (str "document.ations") ∉ goKeywords ∧ pkgBase (str "document.ations") ≠ str "main"
+    ∧ pkgBase (str "document.ations") ≠ str "documentation" := by decide
 
 /-! ## name and description reported at run time -/
 
@@ -184,17 +211,20 @@ example : Domain sample = true := by decide
 
 /-! ## the emitted file is well-formed -/
 
-/-- **package clause**: the package name is a usable identifier — a Go identifier, no keyword, not `main` — for
-    EVERY description of the domain (before 764942c / 2a8a008: only under the hypothesis `pkgNameUsable t`, i.e.
-    not for `interface i.f`, `interface ma.in`) -/
+/-- **package clause**: the package name is a usable identifier — a Go identifier, no keyword, not `main`, not
+    `documentation` — for EVERY description of the domain (before 764942c / 2a8a008: only under the hypothesis
+    `pkgNameUsable t`, i.e. not for `interface i.f`, `interface ma.in`; before f1a09c1 `pkgOk` did not know that
+    go/build ignores the files of a `package documentation`, so the theorem held while `interface document.ation`
+    gave a package that does not build: the checker model was too weak, and with the rule added the theorem was
+    false until the generator was repaired) -/
 theorem gen_pkgOk (t : Idl) (f : GoFile) (h : Domain t = true) (hf : genFile t = some f) : pkgOk f = true := by
   obtain ⟨hp, _, _, _⟩ := pkgname_of_domain t h f hf
   obtain ⟨h1, _⟩ := domain_parts h
   simp only [nameShapes, Bool.and_eq_true] at h1
-  obtain ⟨hi, hk, hm, _, _, _⟩ := pkgname_spec t.name h1.1
+  obtain ⟨hi, hk, hm⟩ := pkgName_usable t.name h1.1
   obtain ⟨c, r, e, hc, _⟩ := pkgName_shape t.name h1.1
   simp only [pkgOk, validName, Bool.and_eq_true, Bool.not_eq_true', bne_iff_ne, ne_eq, hp]
-  refine ⟨⟨⟨hi, by simpa using hk⟩, ?_⟩, hm⟩
+  refine ⟨⟨⟨hi, by simpa using hk⟩, ?_⟩, by simpa using hm⟩
   intro e'
   rw [e] at e'
   injection e' with e1 _
@@ -447,17 +477,28 @@ example : Domain sample = true ∧ (genFile sample).isSome = true :=
   ⟨by decide, rfl⟩
 
 /-- the former counterexamples to the full statement are in the domain and now get a usable package clause and
-    an exact import block: `interface i.f` → `package if_`, `interface ma.in` → `package main_` -/
+    an exact import block: `interface i.f` → `package if_`, `interface ma.in` → `package main_`,
+    `interface document.ation` → `package documentation_` -/
 example :
     let t (n : String) : Idl :=
       { name := str n, doc := [], description := [], members := [.method (str "M") [] (.struct .nil) (.struct .nil)] }
-    Domain (t "i.f") = true ∧ Domain (t "ma.in") = true
+    Domain (t "i.f") = true ∧ Domain (t "ma.in") = true ∧ Domain (t "document.ation") = true
     ∧ (∀ f, genFile (t "i.f") = some f → f.pkg = str "if_" ∧ pkgOk f = true ∧ importsOk f = true)
-    ∧ (∀ f, genFile (t "ma.in") = some f → f.pkg = str "main_" ∧ pkgOk f = true ∧ importsOk f = true) := by
-  refine ⟨by decide, by decide, fun f hf => ⟨?_, gen_pkgOk _ f (by decide) hf, gen_importsOk _ f hf⟩,
+    ∧ (∀ f, genFile (t "ma.in") = some f → f.pkg = str "main_" ∧ pkgOk f = true ∧ importsOk f = true)
+    ∧ (∀ f, genFile (t "document.ation") = some f →
+        f.pkg = str "documentation_" ∧ pkgOk f = true ∧ importsOk f = true) := by
+  refine ⟨by decide, by decide, by decide, fun f hf => ⟨?_, gen_pkgOk _ f (by decide) hf, gen_importsOk _ f hf⟩,
+    fun f hf => ⟨?_, gen_pkgOk _ f (by decide) hf, gen_importsOk _ f hf⟩,
     fun f hf => ⟨?_, gen_pkgOk _ f (by decide) hf, gen_importsOk _ f hf⟩⟩
   · exact (pkgname_of_domain _ (by decide) f hf).1.trans (by decide)
   · exact (pkgname_of_domain _ (by decide) f hf).1.trans (by decide)
+  · exact (pkgname_of_domain _ (by decide) f hf).1.trans (by decide)
+
+/-- `pkgOk` rejects the package clause the unrepaired generator gave `interface document.ation`, and `main` -/
+example : pkgOk { pkg := str "documentation", imports := [], decls := [] } = false
+    ∧ pkgOk { pkg := str "main", imports := [], decls := [] } = false
+    ∧ pkgOk { pkg := str "documentation_", imports := [], decls := [] } = true
+    ∧ pkgOk { pkg := str "documentations", imports := [], decls := [] } = true := by decide
 
 /-- **Tie to the source**: the declarations of /repo that this property's model transliterates
     (`Extracted.codeNames_C07`) have, in the current working tree, exactly the fingerprints of the code the
